@@ -355,6 +355,63 @@ pub fn corpus() -> Vec<Entry> {
     ]));
     nb.budgets = vec![150, 160, 170, 200];
     v.push(nb);
+    // the same through NATIVE FUNCTION VALUES (CallFunction on a native object, not CallNative): the nested runs
+    // must spend the budget of the run there too (seed C03-2: the remaining budget was kept in a local of _run and
+    // written back only around CallNative)
+    let mut nbv = e("nested_budget_native_value", module(vec![
+        ("main", func(&[], vec![
+            sv("f", nval("call1")),
+            sv("_a", dyn_call(rv("f"), vec![fval("spin"), int(12)])),
+            sv("_b", dyn_call(nval("call1"), vec![fval("spin"), int(12)])),
+            sv("_c", dyn_call(nval("try1"), vec![fval("spin"), int(12)])),
+            sg("done", int(1)),
+        ])),
+        ("spin", func(&["n"], vec![
+            sv("i", int(0)),
+            while_(less(rv("i"), rv("n")), sv("i", add(rv("i"), int(1)))),
+            ret(rv("i")),
+        ])),
+    ]));
+    nbv.budgets = vec![100, 150, 160, 170, 200, 250];
+    v.push(nbv);
+    let mut nbm = e("nested_budget_mixed_paths", module(vec![
+        ("main", func(&[], vec![
+            sv("r", int(0)),
+            while_(less(rv("r"), int(6)), block(vec![
+                sv("_x", native("call1", vec![fval("spin"), int(2)])),
+                sv("_y", dyn_call(nval("call1"), vec![fval("spin"), int(9)])),
+                sv("r", add(rv("r"), int(1))),
+            ])),
+            sg("done", rv("r")),
+        ])),
+        ("spin", func(&["n"], vec![
+            sv("i", int(0)),
+            while_(less(rv("i"), rv("n")), sv("i", add(rv("i"), int(1)))),
+            ret(rv("i")),
+        ])),
+    ]));
+    nbm.budgets = vec![60, 120, 200, 300, 400, 500];
+    v.push(nbm);
+    let mut nbs = e("nested_budget_sort_value", module(vec![
+        ("main", func(&[], vec![
+            sv("t", array(vec![int(3), int(1), int(2), int(5)])),
+            sv("r", int(0)),
+            while_(less(rv("r"), int(4)), block(vec![
+                sv("_a", native("__to_array", vec![rv("t")])),
+                sv("_s", dyn_call(nval("__sort"), vec![rv("t"), fval("slow")])),
+                sv("_m", dyn_call(nval("__max"), vec![rv("t"), fval("slow")])),
+                sv("r", add(rv("r"), int(1))),
+            ])),
+            sg("done", rv("r")),
+        ])),
+        ("slow", func(&["k", "v"], vec![
+            sv("i", int(0)),
+            while_(less(rv("i"), int(10)), sv("i", add(rv("i"), int(1)))),
+            ret(rv("v")),
+        ])),
+    ]));
+    nbs.budgets = vec![100, 200, 400, 800, 1200];
+    v.push(nbs);
     v.push(e("closures", module(vec![
         ("main", func(&[], vec![
             sv("c", call("mk", vec![])),
@@ -732,6 +789,18 @@ impl<'a> Gen<'a> {
     /// a native function value called through DynamicCall, sometimes with too few / too many arguments
     fn native_value_call(&mut self, d: u32) -> Card {
         self.feat("native_value_call");
+        if self.rng.chance(1, 3) {
+            // a re-entrant native through a native function value: the nested run starts from CallFunction
+            self.feat("native_value_reentry");
+            let name = *self.rng.pick(&["call1", "try1", "rb1", "call0"]);
+            if name == "call0" {
+                let f = self.fn_value_expr(0, d);
+                return dyn_call(nval("call0"), vec![f]);
+            }
+            let f = self.fn_value_expr(1, d);
+            let x = self.expr(d.min(1));
+            return dyn_call(nval(name), vec![f, x]);
+        }
         let (name, ar) = *self.rng.pick(&[("sub2", 2usize), ("str1", 1), ("mix3", 3), ("t4", 4), ("nil1", 1), ("tab1", 1), ("cat2", 2), ("fail0", 0), ("log1", 1)]);
         let n = if self.rng.chance(1, 8) { self.rng.below(5) as usize } else { ar };
         let args = (0..n).map(|_| self.expr(d.min(1))).collect();
